@@ -14,7 +14,8 @@ import drvlib as D
 from incomplete_cooperative.bounds import BOUNDS, compute_bounds_superadditive_monotone_approx_cached
 from incomplete_cooperative.coalitions import Coalition, minimal_game_coalitions
 from incomplete_cooperative.game import IncompleteCooperativeGame
-from incomplete_cooperative.gameplay import get_exploitabilities_of_action_sequences
+from incomplete_cooperative.gameplay import (get_exploitabilities_of_action_sequences, get_stacked_exploitabilities_of_action_sequences,
+                                             sample_exploitabilities_of_action_sequences)
 from incomplete_cooperative.icg_gym import ICG_Gym
 from incomplete_cooperative.meta_game import MetaGame
 from incomplete_cooperative.run.best_states import get_best_exploitability
@@ -132,6 +133,51 @@ def main():
                         if first is None:
                             first = sig
                         t["same_p1"] = int(sig == first)
+                    except D.DriverError:
+                        raise
+                    except Exception as ex:  # noqa: BLE001
+                        t["exc"] = type(ex).__name__
+                    traces.append(t)
+                # the sampling form: one fresh game per sample, the same reveal sets evaluated on each of them
+                if i % 2 == 0:
+                    tid += 1
+                    samples = rng.randint(1, 3)
+                    ks = rng.choice([0, 1, 2])
+                    p = rng.choice(procs)
+                    games_f = [v] + [[x * tiny for x in random_game(n, rng, cls)] for _ in range(samples - 1)]
+                    sc2 = scale_of([x for g in games_f for x in g])
+                    M2 = max(abs(x) for g in games_f for x in g) or 1.0
+                    t = base(tid, n, "sample", comp, r, gap, k0, sc2)
+                    t.update({"k": ks, "p": p, "games": [D.exact_arr(g, sc2) for g in games_f], "max_steps": samples})
+                    counting = Counting([full_game(n, g) for g in games_f])
+                    game = IncompleteCooperativeGame(n, computer(comp, r))
+                    game.set_known_values([7.0 for c in k0], [Coalition(c) for c in k0])       # stale values: every sample must overwrite them
+                    try:
+                        acts, values = sample_exploitabilities_of_action_sequences(game, counting, gapf, samples=samples, max_size=ks, processes=p)
+                        t["seqs"] = [[int(c.id) for c in seq] for seq in acts]
+                        t["rows"] = [[gap_iv(x, n, gap, sc2, M2) for x in row] for row in np.asarray(values)]
+                        t["same_p1"] = int(len(counting.games) == samples)
+                    except D.DriverError:
+                        raise
+                    except Exception as ex:  # noqa: BLE001
+                        t["exc"] = type(ex).__name__
+                    traces.append(t)
+                    # the stacked form: given action sequences (any order, repeats and already-known coalitions allowed) on given games
+                    tid += 1
+                    p = rng.choice(procs)
+                    t = base(tid, n, "stacked", comp, r, gap, k0, sc2)
+                    seqs = []
+                    for _ in range(rng.randint(1, 4)):
+                        pool = expl + minimal
+                        seq = [rng.choice(pool) for _ in range(rng.randint(0, 4))]
+                        seqs.append(seq)
+                    t.update({"p": p, "games": [D.exact_arr(g, sc2) for g in games_f], "seqs": seqs})
+                    game = IncompleteCooperativeGame(n, computer(comp, r))
+                    game.set_known_values([v[c] for c in k0], [Coalition(c) for c in k0])
+                    try:
+                        out = list(get_stacked_exploitabilities_of_action_sequences(game, [full_game(n, g) for g in games_f],
+                                                                                    ([Coalition(c) for c in seq] for seq in seqs), gapf, processes=p))
+                        t["rows"] = [[gap_iv(x, n, gap, sc2, M2) for x in row] for row in out]
                     except D.DriverError:
                         raise
                     except Exception as ex:  # noqa: BLE001
